@@ -274,6 +274,7 @@ def main(rep, tier, seed):
     items, parts = gen_cases(rng, tier)
     items = corpus + items
     outl, bad, errors = F.correspond(binpath, items, HEADER, CHECK, "c20")
+    rep.extra["no_std_build"] = F.nostd_phase(rep, "c20", items, outl) if not errors and len(outl) == len(items) else {}
     rep.extra["build_profiles"] = F.profile_phase(rep, "c20", items, outl, profiles=("release",)) if not errors and len(outl) == len(items) else {}
     for name, msg in errors:
         rep.violation("correspondence_error_" + name.replace("/", "_"),
